@@ -76,7 +76,23 @@ fn check_tuple(v: &[f64]) -> Option<String> {
         let consumed = v.len().min(max);
         let expect_ok = v[..consumed].iter().all(|x| valid(*x));
         let pulled = Cell::new(0usize);
-        let r = observe(|| Truth::try_from_floats(v.iter().copied().inspect(|_| pulled.set(pulled.get() + 1))));
+        // the argument is `impl Iterator`: exact-size, filtered (size_hint lower bound 0), generated
+        let kind = (v.len() + v.first().map_or(0, |x| x.to_bits() as usize & 3)) % 4;
+        let r = observe(|| {
+            let it = v.iter().copied().inspect(|_| pulled.set(pulled.get() + 1));
+            match kind {
+                0 => Truth::try_from_floats(it),
+                1 => Truth::try_from_floats(it.filter(|_| true)),
+                2 => {
+                    let mut i = 0usize;
+                    Truth::try_from_floats(std::iter::from_fn(|| {
+                        i += 1;
+                        v.get(i - 1).copied()
+                    }))
+                }
+                _ => Truth::try_from_floats(it.flat_map(Some)),
+            }
+        });
         let r = match r {
             Obs::Ret(r) => r,
             Obs::Panic(p) => return Some(format!("Truth::try_from_floats panicked: {}", p)),
@@ -163,7 +179,13 @@ fn check_tuple(v: &[f64]) -> Option<String> {
         let max = 3usize;
         let consumed = v.len().min(max);
         let expect_ok = v[..consumed].iter().all(|x| valid(*x));
-        let r = match observe(|| Budget::try_from_floats(v.iter().copied())) {
+        let kind = (v.len() + v.last().map_or(0, |x| x.to_bits() as usize & 3)) % 4;
+        let r = match observe(|| match kind {
+            0 => Budget::try_from_floats(v.iter().copied()),
+            1 => Budget::try_from_floats(v.iter().copied().filter(|_| true)),
+            2 => Budget::try_from_floats(v.iter().copied().skip_while(|_| false)),
+            _ => Budget::try_from_floats(v.iter().map(|x| *x).scan((), |_, x| Some(x))),
+        }) {
             Obs::Ret(r) => r,
             Obs::Panic(p) => return Some(format!("Budget::try_from_floats panicked: {}", p)),
         };
@@ -402,6 +424,29 @@ pub fn run(ctx: &mut Ctx) {
             violate_tuple(ctx, &t, w);
         }
     }
+    // long sequences: surplus items by the hundreds and thousands (valid and invalid surplus)
+    for len in [6usize, 7, 8, 15, 16, 17, 31, 32, 33, 63, 64, 65, 127, 128, 129, 254, 255, 256, 257, 258, 259, 300, 511, 512, 513, 1000, 4096, 65535, 65536, 65537, 100_000] {
+        idx += 1;
+        if !ctx.mine(idx) {
+            continue;
+        }
+        for head_valid in [true, false] {
+            for surplus in [0.5f64, 7.0, f64::NAN] {
+                let mut t: Vec<f64> = vec![0.25, if head_valid { 0.75 } else { 1.5 }, 1.0];
+                t.resize(len, surplus);
+                ctx.report.eval();
+                ctx.report.bump("family.long-sequences");
+                ctx.report.nontrivial(&format!("long|{}|{}|{:?}", len, head_valid, surplus.to_bits()));
+                if let Some(w) = check_tuple(&t) {
+                    ctx.report.violate(
+                        format!("C13|long|{}|{}", w, len),
+                        format!("{} for a sequence of {} items (head {:?}, surplus {:?})", w, len, &t[..3], surplus),
+                        J::obj().set("kind", "long").set("len", len).set("head_valid", head_valid).set("surplus_bits", format!("{:016x}", surplus.to_bits())).set("why", w.clone()),
+                    );
+                }
+            }
+        }
+    }
     // evidence-number API: specials + random bit patterns
     let k = ctx.share(12_000_000, 400_000_000);
     let mut nums: Vec<f64> = sv.clone();
@@ -459,6 +504,16 @@ pub fn replay(ctx: &mut Ctx, d: &J) -> Option<()> {
                 .collect::<Option<Vec<_>>>()?;
             if let Some(w) = check_tuple(&v) {
                 ctx.report.violate(format!("C13|tuple|{}|{}", w, bits_of(&v)), w, d.clone());
+            }
+        }
+        "long" => {
+            let len = d.get("len")?.as_i128()? as usize;
+            let head_valid = matches!(d.get("head_valid"), Some(J::Bool(true)));
+            let surplus = f64::from_bits(u64::from_str_radix(&jstr(d, "surplus_bits")?, 16).ok()?);
+            let mut t: Vec<f64> = vec![0.25, if head_valid { 0.75 } else { 1.5 }, 1.0];
+            t.resize(len, surplus);
+            if let Some(w) = check_tuple(&t) {
+                ctx.report.violate(format!("C13|long|{}|{}", w, len), w, d.clone());
             }
         }
         "number" => {
